@@ -69,6 +69,16 @@ def _worker_chunk(args):
     pid, tier, base_seed, indices = args
     faulthandler.enable()
     out = []
+    cov = None
+    if os.environ.get('VERIF_COV'):
+        # development aid (tools/covgap.py): line coverage of the repository
+        # under a check, to find code the generators never reach. Uses
+        # sys.monitoring, so it does not disturb the scheduler's settrace.
+        import coverage
+        cov = coverage.Coverage(
+            data_file=os.path.join(os.environ['VERIF_COV'], 'cov'),
+            data_suffix=True, include=[os.path.join(kernel.REPO, 'kmip', '*')])
+        cov.start()
     try:
         prop = load_prop(pid)
         for i in indices:
@@ -83,6 +93,9 @@ def _worker_chunk(args):
     finally:
         from sim import world
         world.cleanup_process_scratch()
+        if cov is not None:
+            cov.stop()
+            cov.save()
     return out
 
 
